@@ -163,3 +163,10 @@ Definition wf_spatial_model (m : spatial_model) : bool :=
   && wf_spatial (sm_spatial m) (sm_C m * prod (sm_dims m))
   && (sm_flat m || (length (sm_dense m) =? 0))
   && wf_dense_net (last (map layer_out_size (sm_spatial m)) 0) (sm_dense m).
+
+Definition net_in (m : spatial_model) : nat := sm_C m * prod (sm_dims m).
+Definition net_out (m : spatial_model) : nat :=
+  match sm_dense m with [] => last (map layer_out_size (sm_spatial m)) 0 | ds => last (widths ds) 0 end.
+(* the same network as a layer list of the reference model (Model/ConvNet.v) *)
+Definition net_layers (m : spatial_model) : list layer :=
+  sm_spatial m ++ (if sm_flat m then [LFlatten] else []) ++ map LDense (sm_dense m).
